@@ -97,6 +97,8 @@ pub enum Lv {
     And(Box<Lv>, Box<Lv>),
     Lit(Box<Ex>),
     Destructure(Box<Ex>, Vec<Lv>),
+    /// chained comparison pattern `a < b <= c` (operands, operators)
+    Cmp(Vec<Lv>, Vec<String>),
 }
 
 pub fn var(s: &str) -> Ex {
@@ -258,6 +260,17 @@ pub fn render_lv(l: &Lv, nested: bool) -> String {
             atom(f),
             args.iter().map(|x| render_lv(x, true)).collect::<Vec<_>>().join(", ")
         ),
+        Lv::Cmp(args, ops) => {
+            let mut out = String::from("(");
+            for (i, a) in args.iter().enumerate() {
+                if i > 0 {
+                    out.push_str(&format!(" {} ", ops[i - 1]));
+                }
+                out.push_str(&render_lv(a, true));
+            }
+            out.push(')');
+            out
+        }
     }
 }
 
